@@ -44,12 +44,14 @@ type forkChain struct {
 	proc   core.Processor
 	signer types.Signer
 	serial uint64
+	mined  map[common.Hash]bool // every transaction included in any block ever built (any branch)
 }
 
 func newForkChain(genesis map[common.Address]*big.Int, gasLimit uint64, signer types.Signer) (*forkChain, error) {
 	fc := &forkChain{
 		sdb:    state.NewDatabase(youdb.NewMemDatabase()),
 		blocks: make(map[common.Hash]*blockInfo),
+		mined:  make(map[common.Hash]bool),
 		proc:   core.NewStateProcessor(nil, nil),
 		signer: signer,
 	}
@@ -188,8 +190,18 @@ func (fc *forkChain) build(parent *blockInfo, cand []*types.Transaction, adjust 
 	bi := &blockInfo{block: types.NewBlock(h, included, nil), truth: truth}
 	fc.mu.Lock()
 	fc.blocks[bi.block.Hash()] = bi
+	for _, tx := range included {
+		fc.mined[tx.Hash()] = true
+	}
 	fc.mu.Unlock()
 	return bi, nil
+}
+
+// minedSomewhere: the transaction is part of some block of some branch.
+func (fc *forkChain) minedSomewhere(h common.Hash) bool {
+	fc.mu.RLock()
+	defer fc.mu.RUnlock()
+	return fc.mined[h]
 }
 
 // selfCheck re-reads the committed state of bi through StateAt and compares it with the ground truth
